@@ -862,6 +862,12 @@ func (mvcc *MVCCLevelDB) Prewrite(req *kvrpcpb.PrewriteRequest) []error {
 			}
 		}
 		if op == kvrpcpb.Op_CheckNotExists {
+			// The check writes no lock, but like any optimistic prewrite it must fail when the key got a newer
+			// version after start_ts: otherwise a key created by a concurrent transaction goes unnoticed.
+			if err = checkNotExistsConflict(mvcc.getDB(""), m, startTS); err != nil {
+				errs = append(errs, err)
+				anyError = true
+			}
 			continue
 		}
 
@@ -883,6 +889,20 @@ func (mvcc *MVCCLevelDB) Prewrite(req *kvrpcpb.PrewriteRequest) []error {
 	}
 
 	return errs
+}
+
+// checkNotExistsConflict runs the write conflict check of an Op_CheckNotExists mutation.
+func checkNotExistsConflict(db *leveldb.DB, m *kvrpcpb.Mutation, startTS uint64) error {
+	iter := newIterator(db, &util.Range{
+		Start: mvccEncode(m.Key, lockVer),
+	})
+	defer iter.Release()
+	dec := lockDecoder{expectKey: m.Key}
+	if _, err := dec.Decode(iter); err != nil {
+		return err
+	}
+	_, err := checkConflictValue(iter, m, startTS, startTS, false, kvrpcpb.AssertionLevel_Off, false, false)
+	return err
 }
 
 func checkConflictValue(iter *Iterator, m *kvrpcpb.Mutation, forUpdateTS uint64, startTS uint64, getVal bool, assertionLevel kvrpcpb.AssertionLevel, lockOnlyIfExists bool, allowLockWithConflict bool) ([]byte, error) {
